@@ -7,6 +7,11 @@ import (
 	"github.com/pion/rtp"
 )
 
+const (
+	// maximum size of a KLV unit.
+	maxUnitSize = 1 * 1024 * 1024
+)
+
 // ErrMorePacketsNeeded is returned when more packets are needed to complete a KLV unit.
 var ErrMorePacketsNeeded = errors.New("need more packets")
 
@@ -42,7 +47,7 @@ func (d *Decoder) Init() error {
 
 // reset clears the decoder state.
 func (d *Decoder) reset() {
-	d.buffer = d.buffer[:0]
+	d.buffer = nil // do not reuse the buffer, it might have been returned to the caller
 	d.expectedSize = 0
 	d.currentTimestamp = 0
 	d.assembling = false
@@ -117,9 +122,14 @@ func (d *Decoder) Decode(pkt *rtp.Packet) ([]byte, error) {
 		}
 
 		// This is the start of a new KLV unit
+		if len(payload) > maxUnitSize {
+			d.reset()
+			return nil, fmt.Errorf("KLV unit size (%d) is too big, maximum is %d", len(payload), maxUnitSize)
+		}
+
 		d.currentTimestamp = timestamp
 		d.assembling = true
-		d.buffer = append(d.buffer[:0], payload...)
+		d.buffer = append([]byte(nil), payload...)
 
 		// Try to determine the expected size if we have enough data
 		if len(payload) >= 17 { // 16 bytes for Universal Label Key + at least 1 byte for length
@@ -135,6 +145,12 @@ func (d *Decoder) Decode(pkt *rtp.Packet) ([]byte, error) {
 			// The previous unit was incomplete
 			d.reset()
 			return nil, fmt.Errorf("incomplete KLV unit: timestamp changed from %d to %d", d.currentTimestamp, timestamp)
+		}
+
+		if (len(d.buffer) + len(payload)) > maxUnitSize {
+			errSize := len(d.buffer) + len(payload)
+			d.reset()
+			return nil, fmt.Errorf("KLV unit size (%d) is too big, maximum is %d", errSize, maxUnitSize)
 		}
 
 		// Append this packet's payload to the buffer
